@@ -110,8 +110,9 @@ def check_send_helpers(ctx):
     for name, stype in expect.items():
         f = _method(repo, "HsmsProtocol", name)
         ctx.touch(f)
+        fnode = inline.expanded(ctx, f)  # a shared private helper that builds, logs and sends is the code it holds
         params = [a.arg for a in f.node.args.args[1:]]
-        hdr_calls = [c for c in calls_in(f.node) if (call_name(c) or "").startswith("Hsms") and (call_name(c) or "").endswith("Header")]
+        hdr_calls = [c for c in calls_in(fnode) if (call_name(c) or "").startswith("Hsms") and (call_name(c) or "").endswith("Header")]
         ctx.require(len(hdr_calls) == 1, f"{f.qualname}: expected one header construction")
         h = hdr_calls[0]
         hst, sup = _stype_of_header_class(repo, call_name(h))
@@ -120,16 +121,16 @@ def check_send_helpers(ctx):
         ok = [norm(a) for a in h.args] == params
         ctx.ob("C05.P1", f.qualname, ok, "the header is built from the given system bytes (and s_type/reason) in order" if ok else
                f"header arguments {[norm(a) for a in h.args]} are not the parameters {params} in order", key="args", where=f.where)
-        cfg = cfg_of(f.node)
+        cfg = cfg_of(fnode)
         cnt = cfg.count_on_paths(lambda n: any(c == "self.send_message" for c in n.call_names()), cfg.entry, cfg.exit, no_exc=True)
         ok = cnt == (1, 1)
         ctx.ob("C05.P1", f.qualname, ok, "the message is sent exactly once" if ok else f"send_message is called {cnt} times", key="sent-once", where=f.where)
         # the built message (not some other) is what is sent
-        sm = next((c for c in calls_in(f.node) if call_name(c) == "self.send_message"), None)
+        sm = next((c for c in calls_in(fnode) if call_name(c) == "self.send_message"), None)
         if sm is None:
             continue  # reported above: the message is not sent through send_message
-        msg_vars = {t.id for st in rules.func_stmts(f.node) if isinstance(st, ast.Assign) and h in calls_in(st.value) for t in st.targets if isinstance(t, ast.Name)}
-        ok = bool(sm.args) and (norm(sm.args[0]) in msg_vars or h in calls_in(sm.args[0]) or (call_name(h) + "(") in rules.expand(f.node, sm.args[0]))
+        msg_vars = {t.id for st in rules.func_stmts(fnode) if isinstance(st, ast.Assign) and h in calls_in(st.value) for t in st.targets if isinstance(t, ast.Name)}
+        ok = bool(sm.args) and (norm(sm.args[0]) in msg_vars or h in calls_in(sm.args[0]) or (call_name(h) + "(") in rules.expand(fnode, sm.args[0]))
         ctx.ob("C05.P1", f.qualname, ok, "the sent message is the one built from the header" if ok else f"send_message({norm(sm.args[0]) if sm.args else ''}) does not send the built message", key="sends-built", where=f.where)
     # reject header: (system, 0xFFFF, s_type.value, reason, ..., REJECT_REQ)
     st, sup = _stype_of_header_class(repo, "HsmsRejectReqHeader")
@@ -350,7 +351,7 @@ def check_data_gate(ctx):
     reason = ref["reject_reason_not_selected"]
     good_args = False
     for n, c in rej_ctor:
-        a = [norm(x) for x in c.args]
+        a = [rules.expand(fn, x) for x in c.args]  # read through a local for `message.header`
         if len(a) == 3 and a[0] == f"{param}.header.system" and a[1] == f"{param}.header.s_type" and a[2] == str(reason) and cfg.dominates(notsel, n):
             good_args = True
     for n in rej_send:
